@@ -547,27 +547,10 @@ local macro "norm_kw" : tactic => `(tactic| simp only [DiamondOut, kw, plumb_Dia
 
 variable (ρ : String → ℝ)
 
-/-- each of the three admissible patterns (width+depth, width+angle, depth+angle) resolves to a consistent triangle;
-    the member that was not given is the one measured on the result (`tip_angle = π − 2·flank_angle`, …) -/
-theorem diamond_triangle (hw : ρ "usable_width" ≠ 0) :
-    (DiamondRel (ρ "usable_width") (ρ "tip_depth") (Real.pi - 2 * Expr.eval ρ (kw plumb_DiamondGroove_1 "flank_angle"))
-        (ρ "r2") (Expr.eval ρ (kw plumb_DiamondGroove_1 "flank_angle")) (Expr.eval ρ (kw plumb_DiamondGroove_1 "depth"))
-      ∧ Expr.eval ρ (kw plumb_DiamondGroove_1 "usable_width") = ρ "usable_width") ∧
-    (DiamondRel (ρ "usable_width")
-        (ρ "usable_width" / 2 * Real.tan (Expr.eval ρ (kw plumb_DiamondGroove_2 "flank_angle")))
-        (ρ "tip_angle" * (Real.pi / 180))
-        (ρ "r2") (Expr.eval ρ (kw plumb_DiamondGroove_2 "flank_angle")) (Expr.eval ρ (kw plumb_DiamondGroove_2 "depth"))
-      ∧ Expr.eval ρ (kw plumb_DiamondGroove_2 "usable_width") = ρ "usable_width") ∧
-    (Real.tan (Expr.eval ρ (kw plumb_DiamondGroove_3 "flank_angle")) ≠ 0 →
-      DiamondRel (Expr.eval ρ (kw plumb_DiamondGroove_3 "usable_width")) (ρ "tip_depth") (ρ "tip_angle" * (Real.pi / 180))
-        (ρ "r2") (Expr.eval ρ (kw plumb_DiamondGroove_3 "flank_angle")) (Expr.eval ρ (kw plumb_DiamondGroove_3 "depth"))) := by
-  norm_kw
-  simp only [DiamondRel]
-  norm_env
-  refine ⟨⟨⟨?_, by ring, by triv⟩, by triv⟩, ⟨⟨by triv, by triv, by triv⟩, by triv⟩, fun ht => ⟨?_, by triv, by triv⟩⟩
-  · rw [Real.tan_arctan]; field_simp
-  · generalize Real.tan _ = T at ht ⊢
-    field_simp
+/-! `diamond_triangle` (each of the three admissible patterns - width+depth, width+angle, depth+angle - resolves to a
+    consistent triangle) is stated in `PyrollProps/C04Stored.lean`, about the tip depth and tip angle the finished object
+    REPORTS (the generated `reported_DiamondGroove_k`: what the constructor stores on the object and the public properties hand
+    out), together with the cross-subset statements for the reported values. -/
 
 theorem diamond_roundtrip_uw_td (uw td ta r2 fa depth : ℝ) (h : DiamondRel uw td ta r2 fa depth)
     (h1 : ρ "usable_width" = uw) (h2 : ρ "tip_depth" = td) (h3 : ρ "r2" = r2)
